@@ -109,6 +109,30 @@ Fits(u, d, l, p, chk) ==
     [] OTHER        -> MemOK(u, d.mem, l, 255) /\ StrOK(u, d, l) /\ ConnOK(u, d, l)   \* ReserveForChild
 
 (***************************************************************************)
+(* checkMemory's overflow-safe arithmetic (scope.go), transcribed on a     *)
+(* two's-complement machine whose largest integer is MaxI (the code: int64,*)
+(* MaxI = MaxInt64; TLC: any MaxI with 256*MaxI inside TLC's 32 bits).     *)
+(***************************************************************************)
+WrapI(x, MaxI) == ((x + MaxI + 1) % (2 * (MaxI + 1))) - (MaxI + 1)
+TDiv(x, y) == IF x >= 0 THEN x \div y ELSE 0 - ((0 - x) \div y)          \* Go's / truncates toward zero
+AddOvf(a, b, MaxI) == LET c == WrapI(a + b, MaxI) IN [c |-> c, ok |-> (c > a) = (b > 0)]
+MulOvf(a, b, MaxI) ==
+  LET c == WrapI(a * b, MaxI) IN
+  IF a = 0 \/ b = 0 \/ a = 1 \/ b = 1 THEN [c |-> c, ok |-> TRUE]
+  ELSE IF a = 0 - (MaxI + 1) \/ b = 0 - (MaxI + 1) THEN [c |-> c, ok |-> FALSE]
+  ELSE [c |-> c, ok |-> TDiv(c, b) = a]
+\* TRUE = the reservation is granted
+CheckMemoryCode(mem, rsvp, limit, prio, MaxI) ==
+  IF limit = MaxI THEN TRUE                                  \* "Special case where we've set max limits."
+  ELSE LET add == AddOvf(mem, rsvp, MaxI)
+           mul == MulOvf(1 + prio, limit, MaxI)
+           thr == IF ~mul.ok THEN (limit * (1 + prio)) \div 256      \* the big.Int path: exact
+                  ELSE TDiv(mul.c, 256)
+       IN ~(~add.ok \/ add.c > thr)
+\* the statement: granted iff the new total stays within limit*(1+prio)/256, MaxI meaning "unlimited"
+CheckMemoryIdeal(mem, rsvp, limit, prio, MaxI) == limit = MaxI \/ mem + rsvp <= (limit * (1 + prio)) \div 256
+
+(***************************************************************************)
 (* Objects                                                                 *)
 (***************************************************************************)
 NoObj == [st |-> "none", dir |-> "", fd |-> FALSE, ep |-> "", al |-> FALSE, ipv |-> FALSE,
@@ -133,6 +157,7 @@ LimOfScope(ww, x) == IF x \in Named THEN Lim[x]
                      ELSE IF x \in StreamIds THEN Lim["stream"]
                      ELSE LimOfScope(ww, ww.obj[x].owner)       \* a span copies its owner's limit
 MinOf(S) == CHOOSE i \in S : \A j \in S : i <= j
+HeldCap == 6
 FirstFree(ww, ids) == LET free == {i \in DOMAIN ids : ww.obj[ids[i]].st = "none"} IN
                       IF free = {} THEN "" ELSE ids[MinOf(free)]
 Allowed(ep) == ep \in AllowNet \/ \E p \in Peers : <<ep, p>> \in AllowPeer
@@ -374,15 +399,27 @@ Unused(ww, s) == ww.ref[s] <= 0 /\ NoSCF(ww.use[s])
 GCSafe(ww) == \A s \in GCable : Unused(ww, s) => ww.use[s].mem = 0
 RECURSIVE SumMem(_, _)
 SumMem(ww, S) == IF S = {} THEN 0 ELSE LET x == CHOOSE y \in S : TRUE IN ww.use[x].mem + SumMem(ww, S \ {x})
+RECURSIVE StripSum(_, _)      \* sum of the releases on scope x still pending in a script
+StripSum(sc, x) == IF sc = <<>> THEN Z
+                   ELSE VAdd(IF Head(sc).k = "L" /\ Head(sc).s = x THEN Head(sc).d ELSE Z, StripSum(Tail(sc), x))
 GCStep(ww) ==
   LET dead == {s \in GCable : Unused(ww, s)}
       sub == {PPS(x, p) : x \in Protos, p \in {q \in Peers : PeerS(q) \in dead}}
              \cup {SPS(x, p) : x \in Svcs, p \in {q \in Peers : PeerS(q) \in dead}}
              \cup {PPS(x, p) : x \in {y \in Protos : ProtoS(y) \in dead}, p \in Peers}
+      gone == dead \cup sub
       m == SumMem(ww, dead)
-  IN [ww EXCEPT !.use = [x \in All |-> IF x \in dead \cup sub THEN Z
+      busy == {t \in ThreadIds : ww.proc[t] # Idle}
+      \* a Done() in flight that still has to release from a collected scope finds it closed: the
+      \* release is a no-op, what it would have released went away with the scope
+      strip(sc) == SelectSeq(sc, LAMBDA st : ~(st.k = "L" /\ st.s \in gone))
+  IN [ww EXCEPT !.use = [x \in All |-> IF x \in gone THEN Z
                                        ELSE IF x = SYS THEN [@[x] EXCEPT !.mem = Pos(@ - m)] ELSE @[x]],
-                !.ref = [s \in GCable |-> IF s \in dead THEN 0 ELSE @[s]]]
+                !.ref = [s \in GCable |-> IF s \in dead THEN 0 ELSE @[s]],
+                !.pend = [t \in ThreadIds |-> IF t \in busy
+                            THEN [x \in Named |-> IF x \in gone THEN VSub(@[t][x], StripSum(ww.proc[t].script, x)) ELSE @[t][x]]
+                            ELSE @[t]],
+                !.proc = [t \in ThreadIds |-> IF t \in busy THEN [@[t] EXCEPT !.script = strip(@)] ELSE @[t]]]
 
 (***************************************************************************)
 (* Calls offered in a state                                                *)
@@ -412,8 +449,18 @@ Calls(ww) ==
 \cup {[name |-> "done", h |-> o] : o \in IF "done" \in Kinds THEN Created(ww, ObjIds) ELSE {}}
 \* callers never release more than they reserved through that handle (a release on a closed handle
 \* is offered once: it must be a no-op)
-CallOK(ww, c) == c.name = "release" =>
-                   IF IsDone(ww, c.h) THEN c.n = MinOf({m \in Sizes : m > 0}) ELSE c.n <= ww.held[c.h]
+RECURSIVE InFlightRel(_, _, _)
+InFlightRel(ww, T, h) ==
+  IF T = {} THEN 0
+  ELSE LET t == CHOOSE y \in T : TRUE
+           n == IF ww.proc[t] # Idle /\ ww.proc[t].call.name = "release" /\ ww.proc[t].call.h = h
+                THEN ww.proc[t].call.n ELSE 0
+       IN n + InFlightRel(ww, T \ {t}, h)
+CallOK(ww, c) == /\ c.name = "release" =>
+                      IF IsDone(ww, c.h) THEN c.n = MinOf({m \in Sizes : m > 0})
+                      ELSE c.n + InFlightRel(ww, ThreadIds, c.h) <= ww.held[c.h]
+                 \* keeps the instance finite where the GC forgets memory (FaithfulGC)
+                 /\ c.name = "reserve" => ww.held[c.h] + c.n <= HeldCap
 
 (***************************************************************************)
 (* Behaviour                                                               *)
